@@ -614,6 +614,14 @@ func c12Run(sc *C12Scenario) *c12Outcome {
 				if crashedCaller {
 					continue
 				}
+				// The call that started this goroutine had already returned (its deferred
+				// calls ran first): in a real process the panic still ends the process;
+				// the outcome of that call is "panic", compared with the reference like
+				// any other.
+				if g := int(r.Group); g >= 0 && g < len(sc.Tasks) {
+					results[g] = &parseResult{panicMsg: "a goroutine started by the call panicked: " + fmt.Sprint(r.Panic)}
+					continue
+				}
 				simrt.SeamsOn(false, false)
 				out.class, out.sig = "panic", "goroutine of the code under test panicked after the calls had returned"
 				out.detail = fmt.Sprintf("%v\n%s", r.Panic, clip(r.Stack, 1200))
@@ -837,6 +845,7 @@ func c12Search() {
 	all := corpus()
 	failures := 0
 	var clockSpan float64
+	runsInProcess := 0
 	for idx := *flagFrom; idx < *flagRuns; idx++ {
 		if idx%shardN != shardI {
 			continue
@@ -844,6 +853,15 @@ func c12Search() {
 		if overBudget() || failures >= *flagMaxFail {
 			break
 		}
+		if *flagMaxRuns > 0 && runsInProcess >= *flagMaxRuns {
+			// Recycle the process: only the first runs of a process meet
+			// never-initialised process-wide state (lazily built tables, first use
+			// of a cache), also from two goroutines at once.
+			sum.Stopped = true
+			sum.NextSeed = uint64(idx)
+			break
+		}
+		runsInProcess++
 		curIndex = idx
 		noteProgress(idx)
 		runSeed := derive(*flagSeed, fmt.Sprintf("C12/%s/%d", *flagMode, idx))
@@ -853,6 +871,20 @@ func c12Search() {
 			lex = int(idx/4) % 40320
 		}
 		sc := c12GenScenario(newRNG(runSeed), all, concurrent, lex)
+		if concurrent && runsInProcess == 1 && len(sc.Tasks) >= 2 {
+			// The first run of a fresh process: every task parses (and prints) the
+			// SAME text through the same entry point, close together, so that
+			// whatever the code initialises lazily on first use is first used from
+			// several goroutines at once.
+			for i := 1; i < len(sc.Tasks); i++ {
+				sc.Tasks[i] = sc.Tasks[0]
+			}
+			for i := range sc.Tape.Gaps {
+				if i < 64 {
+					sc.Tape.Gaps[i] = uint32(1 + (int(sc.Tape.Gaps[i]) % 40))
+				}
+			}
+		}
 		o := c12Run(sc)
 		if o.skip != "" {
 			sum.Skipped[o.skip]++
